@@ -4,20 +4,21 @@
 # tier), records their verdicts in /verif/seeded/<id>/detect.json, and always
 # restores /repo.
 set -u
-ID=$1; shift
+ID=${1%%@*}; R=""; case "$1" in *@*) R="_${1##*@}";; esac; shift
 S=/verif/seeded/$ID
 cd /repo || exit 2
 if [ -n "$(git status --porcelain --untracked-files=no)" ]; then echo "repo not clean"; exit 2; fi
-git apply $S/patch.diff || exit 2
+P=$S/patch.diff; [ -f $S/patch_rebased.diff ] && P=$S/patch_rebased.diff
+git apply $P || exit 2
 trap 'git -C /repo checkout -q -- .' EXIT
-echo "{" > $S/detect.json
+echo "{" > $S/detect$R.json
 first=1
 for C in "$@"; do
   cd /verif
-  ./check $C --tier quick > $S/check_$C.log 2>&1; rc=$?
-  sigs=$(grep -A1 "^VIOLATION" $S/check_$C.log | grep "signature:" | sed 's/.*signature: //' | sort -u | head -8 | tr '\n' ';')
-  [ $first = 0 ] && echo "," >> $S/detect.json; first=0
-  echo " \"$C\": {\"exit\": $rc, \"signatures\": \"$sigs\"}" >> $S/detect.json
-  echo "$ID $C exit=$rc $sigs"
+  ./check $C --tier quick > $S/check_$C$R.log 2>&1; rc=$?
+  sigs=$(grep -A1 "^VIOLATION" $S/check_$C$R.log | grep "signature:" | sed 's/.*signature: //' | sort -u | head -8 | tr '\n' ';')
+  [ $first = 0 ] && echo "," >> $S/detect$R.json; first=0
+  echo " \"$C\": {\"exit\": $rc, \"signatures\": \"$sigs\"}" >> $S/detect$R.json
+  echo "$ID$R $C exit=$rc $sigs"
 done
-echo "}" >> $S/detect.json
+echo "}" >> $S/detect$R.json
